@@ -99,7 +99,8 @@ def sample_file(rng, inst, path, n=None, floatdata=False, voltage=None, amp_log=
                         v = 0.0
                 row.append(v)
             ev.append(row)
-        spec = dict(version='FCS3.0', datatype='F', widths=[32] * D, events=ev, ranges=[262144] * D, names=names,
+        dt = 'D' if floatdata == 'D' else 'F'
+        spec = dict(version='FCS3.0', datatype=dt, widths=[64 if dt == 'D' else 32] * D, events=ev, ranges=[262144] * D, names=names,
                     pne=['0,0'] * D, pnv=voltage or [str(400 + 10 * j) for j in range(D)], png=[None] * D, extra=extra)
     else:
         ev = [[int(cols[j][i]) for j in range(D)] for i in range(n)]
@@ -168,7 +169,9 @@ def experiment(rng, base_dir, n_inst=None, n_beads=None, n_samples=None, units_p
         wt = rng.random() < 0.7
         if k == 0 and zero_fraction_first:
             ti, wt = 'full', True           # a row that keeps no events, on a file with a time channel and a time step
-        info['sample_specs']['S%d' % k] = sample_file(rng, it, os.path.join(base_dir, fn), floatdata=isf, with_time=wt, time_info=ti)
+        info['sample_specs']['S%d' % k] = sample_file(rng, it, os.path.join(base_dir, fn), with_time=wt, time_info=ti,
+                                                      floatdata=('D' if (rng.random() < 0.4 or (force_float_first == 'D' and k == 0))
+                                                                 else True) if isf else False)
         row = {'ID': 'S%d' % k, 'Instrument ID': it['ID'], 'Beads ID': None, 'File Path': fn,
                'Gate Fraction': 0 if (k == 0 and zero_fraction_first) else fractions[int(rng.integers(len(fractions)))],
                'Strain': 'strain %d' % k}
